@@ -211,5 +211,10 @@ class NumericArray(list):
                       repr(range), repr(elems)))
           yield e
         else:
-          yield float(e)
+          try:
+            e = float(e)
+          except:
+            raise gfapy.ValueError("Value is not valid: {}\n".format(e)+
+                "Numeric array string: {}".format(string))
+          yield e
     return cls(list(gen()))
